@@ -32,9 +32,9 @@ pub fn to_val(t: &OwnedTerm) -> Val {
         }
         OwnedTerm::Tuple(v) => Val::Tuple(v.iter().map(to_val).collect()),
         OwnedTerm::Map(m) => Val::map(m.iter().map(|(k, v)| (to_val(k), to_val(v))).collect()),
-        OwnedTerm::Pid(p) => pid_val(p),
-        OwnedTerm::Port(p) => Val::Port { node: p.node.name.to_string(), id: p.id, creation: p.creation },
-        OwnedTerm::Reference(r) => ref_val(r),
+        OwnedTerm::Pid(p) => local_wrap(p.local_ext_bytes.as_deref(), pid_val(p)),
+        OwnedTerm::Port(p) => local_wrap(p.local_ext_bytes.as_deref(), Val::Port { node: p.node.name.to_string(), id: p.id, creation: p.creation }),
+        OwnedTerm::Reference(r) => local_wrap(r.local_ext_bytes.as_deref(), ref_val(r)),
         OwnedTerm::ExternalFun(f) => Val::Tuple(vec![
             Val::atom("$external_fun"),
             Val::Atom(f.module.name.to_string()),
@@ -42,6 +42,15 @@ pub fn to_val(t: &OwnedTerm) -> Val {
             Val::int(i128::from(f.arity)),
         ]),
         OwnedTerm::InternalFun(_) => Val::atom("$internal_fun"),
+    }
+}
+
+/// An identifier that carries node-local bytes denotes the node-local form: its opaque hash
+/// (first 8 bytes) plus the logical fields.
+fn local_wrap(bytes: Option<&[u8]>, inner: Val) -> Val {
+    match bytes {
+        Some(b) if b.len() >= 8 => Val::Local(b[..8].to_vec(), Box::new(inner)),
+        _ => inner,
     }
 }
 
@@ -79,24 +88,41 @@ pub fn from_val(v: &Val) -> OwnedTerm {
             }
             OwnedTerm::Map(m)
         }
-        Val::Pid { .. } => OwnedTerm::Pid(to_pid(v).unwrap()),
+        Val::Pid { node, id, serial, creation } => OwnedTerm::Pid(ExternalPid::new(Atom::new(node), *id, *serial, *creation)),
         Val::Port { node, id, creation } => OwnedTerm::Port(ExternalPort::new(Atom::new(node), *id, *creation)),
-        Val::Ref { .. } => OwnedTerm::Reference(to_ref(v).unwrap()),
+        Val::Ref { node, creation, ids } => OwnedTerm::Reference(ExternalReference::new(Atom::new(node), *creation, ids.clone())),
+        Val::Local(hash, inner) => {
+            // node-local bytes as a peer would have sent them: hash + the identifier's encoding
+            let mut bytes = hash.clone();
+            crate::wire::enc_term(&mut bytes, inner, None);
+            match &**inner {
+                Val::Pid { node, id, serial, creation } => OwnedTerm::Pid(ExternalPid::with_local_ext_bytes(Atom::new(node), *id, *serial, *creation, bytes)),
+                Val::Port { node, id, creation } => OwnedTerm::Port(ExternalPort::with_local_ext_bytes(Atom::new(node), *id, *creation, bytes)),
+                Val::Ref { node, creation, ids } => OwnedTerm::Reference(ExternalReference::with_local_ext_bytes(Atom::new(node), *creation, ids.clone(), bytes)),
+                other => from_val(other),
+            }
+        }
     }
 }
 
 pub fn to_pid(v: &Val) -> Option<ExternalPid> {
-    if let Val::Pid { node, id, serial, creation } = v {
-        Some(ExternalPid::new(Atom::new(node), *id, *serial, *creation))
-    } else {
-        None
+    match v {
+        Val::Pid { node, id, serial, creation } => Some(ExternalPid::new(Atom::new(node), *id, *serial, *creation)),
+        Val::Local(..) => match from_val(v) {
+            OwnedTerm::Pid(p) => Some(p),
+            _ => None,
+        },
+        _ => None,
     }
 }
 
 pub fn to_ref(v: &Val) -> Option<ExternalReference> {
-    if let Val::Ref { node, creation, ids } = v {
-        Some(ExternalReference::new(Atom::new(node), *creation, ids.clone()))
-    } else {
-        None
+    match v {
+        Val::Ref { node, creation, ids } => Some(ExternalReference::new(Atom::new(node), *creation, ids.clone())),
+        Val::Local(..) => match from_val(v) {
+            OwnedTerm::Reference(r) => Some(r),
+            _ => None,
+        },
+        _ => None,
     }
 }
